@@ -627,6 +627,20 @@ Section Core.
     intros j b Hj Hb. destruct (cover_unique _ _ _ _ _ _ Hi Hj Hp Hb). auto.
   Qed.
 
+  (* greedy-maximality on the cover: every clique within the limit shares an edge with an accepted clique
+     at least as large *)
+  Theorem cover_greedy K : CliqueP g K -> 2 <= length K -> Within ms (length K) ->
+    exists c' u v, In c' cover /\ inpair K u v /\ inpair c' u v /\ length K <= length c'.
+  Proof.
+    clear Hms. intros HK LK WK. destruct (go_all _ _ Hord K HK LK) as [c [Hc Hset]].
+    destruct (go_cliques _ _ Hord c Hc) as [NDc _]. destruct HK as [NDK _].
+    assert (Lc : length c = length K) by (apply seteq_length; auto).
+    destruct (inv_max _ _ _ _ core_inv c Hc) as [c' [u [v [Hc' [Hlen [Hp Hp']]]]]].
+    { apply within_spec. rewrite Lc. auto. }
+    { lia. }
+    exists c', u, v. split; auto. split; [apply (proj1 (inpair_seteq _ _ u v Hset)); auto|]. split; auto. lia.
+  Qed.
+
   (* the working copy ends up without edges *)
   Theorem working_copy_empty u v : adj (fst st) u v = false.
   Proof.
@@ -949,6 +963,11 @@ Section Cover.
     exists i c, nth_error cover i = Some c /\ inpair c u v /\
       forall j b, nth_error cover j = Some b -> inpair b u v -> j = i /\ b = c.
   Proof. apply (cover_exact g ms _ (proj1 (valid_graph_spec g) Hg) Hms sched_good). Qed.
+
+  (* greedy-maximality *)
+  Theorem mpcc_cover_greedy K : CliqueP g K -> 2 <= length K -> Within ms (length K) ->
+    exists c' u v, In c' cover /\ inpair K u v /\ inpair c' u v /\ length K <= length c'.
+  Proof. apply (cover_greedy g ms _ sched_good). Qed.
 
   (* every edge of the working copy has been claimed when the loop ends *)
   Theorem mpcc_working_copy_empty u v : adj (fst (greedy ms (g_edges g) (mpcc_order sh))) u v = false.
